@@ -227,9 +227,10 @@ def mval(model, x):
 class Concretizer:
     """Turns term values into JSON under a model; numbers cells in traversal order."""
 
-    def __init__(self, ex, model, allowed=None):
+    def __init__(self, ex, model, allowed=None, initial_cells=False):
         self.ex = ex
         self.model = model
+        self.initial_cells = initial_cells
         self.cells = {}
         self.cell_json = {}
         self.allowed = allowed if allowed is not None else (dict(ex.f.allowed) if ex.frames else {})
@@ -249,7 +250,10 @@ class Concretizer:
         if cell not in self.cells:
             cid = len(self.cells)
             self.cells[cell] = cid
-            content = self.ex.cell_get(cell) if self.ex.frames else (cell.init if cell.persistent else cell.content)
+            if self.initial_cells and cell.persistent:
+                content = cell.init
+            else:
+                content = self.ex.cell_get(cell) if self.ex.frames else (cell.init if cell.persistent else cell.content)
             self.cell_json[cid] = None
             content = self.pick(content)
             if isinstance(content, Adt) and content.variant == "Some":
@@ -540,3 +544,28 @@ def slot_eq(ex, a, b, opts=DEFAULT_EQ):
 
     rec(sa, sb, True, "")
     return out
+
+
+def inline_cells(j, cells, order=None):
+    """Term JSON with hole cells renumbered in traversal order and their contents inlined, so that
+    results of the executor and of gram-replay can be compared."""
+    if order is None:
+        order = {}
+
+    def go(x):
+        if isinstance(x, list):
+            return [go(y) for y in x]
+        if not isinstance(x, dict):
+            return x
+        if x.get("v") == "Unifier":
+            cid = str(x["cell"])
+            first = cid not in order
+            if first:
+                order[cid] = len(order)
+            out = {"v": "Unifier", "cell": order[cid], "shift": x["shift"], "sr": x.get("sr")}
+            if first:
+                c = cells.get(cid)
+                out["content"] = go(c) if c is not None else None
+            return out
+        return {k: go(v) for k, v in x.items()}
+    return go(j)
